@@ -11,18 +11,24 @@ from framework import TranslateError  # noqa: F401
 
 PID = "C03"
 PROPS_FILE = "Props/C03.v"
-GEN_FILES = ["Gen/C03_len.v"]
-MODEL_FILES = ["Model/C03_pipeline.v"]
+GEN_FILES = ["Gen/C03_len.v", "Gen/C03_wiring.v"]
+MODEL_FILES = ["Model/C03_pipeline.v", "Model/C03_graph.v"]
 ALLOWED_AXIOMS: list[str] = []
 CASE_HEADER = ("From Coq Require Import ZArith QArith.\n"
-               "From LK Require Import Lib.QLib Lib.PyInt Lib.TopN Gen.C03_len Model.C03_pipeline.\nOpen Scope Z_scope.")
+               "From LK Require Import Lib.QLib Lib.PyInt Lib.TopN Gen.C03_len Model.C03_pipeline Model.C03_graph Gen.C03_wiring.\nOpen Scope Z_scope.")
 TRUSTED = [
     "Coq 8.16.1 kernel + vm_compute (no native_compute); Print Assumptions of every theorem in Props/C03.v: closed under the global context",
     "translator harness/translate/c03.py (+ pyq.py helpers): Python ast -> Gallina (Lib/PyInt.v combinators) for TopNRanker.__call__'s length "
     "resolution and the branch structure of stats.argtopn; the NaN-mask recursion and the partition / full-sort branch bodies of argtopn are "
     "matched textually (any edit there fails closed)",
-    "hand-written model of RecQuery.create, UserTrainingHistoryLookup, UnratedTrainingItemsCandidateSelector, the use_first_of wiring of "
-    "RecPipelineBuilder / topn_pipeline / predict_pipeline and FallbackScorer (Model/C03_pipeline.v), tied by correspondence cases evaluated "
+    "translator of pipeline/common.py (same file): RecPipelineBuilder.build and predict_pipeline are executed on an abstract builder for every "
+    "combination of their flags into Gen/C03_wiring.v (node, component, parameter <- node); unknown statements, node names, parameters, component "
+    "expressions or conditions fail closed; RecPipelineBuilder.__init__ / scorer / ranker / predicts_ratings and topn_pipeline are matched textually; "
+    "a prediction transform is walked but not modelled; the generated wiring is also compared in Coq with the connections every built pipeline "
+    "object reports (node_input_connections, config.aliases, config.default)",
+    "hand-written model of RecQuery.create, UserTrainingHistoryLookup, UnratedTrainingItemsCandidateSelector, the generic wiring interpreter "
+    "(Model/C03_graph.v), train() = replace the held data (Model/C03_pipeline.v: after) "
+    "and FallbackScorer (Model/C03_pipeline.v), tied by correspondence cases evaluated "
     "inside Coq: candidates, looked-up history and fallback merge compared exactly, the (candidates, scorer output, ranking) triple of one "
     "run_all handed to the verified checker rec_ok_b; floats converted to exact rationals, no tolerance",
     "library contracts not verified: numpy argsort/argpartition (only their result is checked, per case), pandas reindex, the pipeline runner "
@@ -41,7 +47,7 @@ RULE = ("structured generator: datasets of 2-10 users x 3-15 items (users with e
         "configured n and run-time n in {None, -1, 1..20}; malformed stream: scorer without score field, predict_pipeline without items, "
         "run-time n = 0.  Every case is additionally run with several nodes requested from ONE run (rating-predictor then recommender, the "
         "reverse, and run_all() of every node) and with every component node on its own: each requested output must satisfy the property against "
-        "the scoring model's own output, and every node must hold after a run what it produces on its own (no consumer alters a shared output).  non-trivial = no error, >= 3 candidates, a non-empty ranking that leaves out at least one candidate; distinct = by hash of the case")
+        "the scoring model's own output, and every node must hold after a run what it produces on its own (no consumer alters a shared output).  Life cycle: 2 of 5 pipelines have an earlier life -- the SAME object was trained on 1-2 other data sets over the same identifier universe (users / items kept, dropped, new; other histories) and asked for every user of both data sets, then trained on the case's data; all observations (history, candidates, every query form, predictions) are compared with the case's data alone.  The scoring model and the fallback model are also called on their own (the component object, the query with the user's current training row, the candidate items) and the pipeline's scorer output and every prediction for an item without a primary score are compared with that, item by item; pipelines with a fallback get NaN-heavy primaries and supplied candidates mixing seen, unseen and unknown items.  non-trivial = no error, >= 3 candidates, a non-empty ranking that leaves out at least one candidate; distinct = by hash of the case")
 
 
 def translate():
@@ -107,6 +113,13 @@ def gen_pipe(rng, malformed):
         p["predicts"] = rng.choice([True, False, "custom"])
         if p["predicts"] == "custom":
             p["fallback"] = gen_scorer(rng)
+    if p["predicts"] in (True, "custom") and p["scorer"].get("scores", True) and rng.chance(1, 2):
+        # rating prediction with a fallback: a primary that leaves many gaps, so the merge is exercised item by item
+        p["scorer"] = rng.weighted([
+            ({"kind": "synth", "seed": rng.below(1000), "levels": rng.choice([2, 4, 8]), "nan_num": rng.choice([3, 5, 6, 7]),
+              "mode": rng.choice(["item", "user", "hist"]), "f32": rng.chance(1, 3), "scores": True}, 4),
+            ({"kind": "known", "score": rng.choice([None, "indicator"])}, 1),
+            ({"kind": "iknn", "k": rng.randint(1, 3), "feedback": "explicit"}, 1)])
     return p
 
 
@@ -130,13 +143,44 @@ def gen_query(rng, ds, malformed):
     return q
 
 
-def gen_items(rng, ds, q):
-    if rng.chance(1, 2):
+def gen_items(rng, ds, q, often=False):
+    if rng.chance(1, 4 if often else 2):
         return None
     items = ds["items"]
     pool = items + [i for i in range(41, 46)]       # 41..45 are never in the vocabulary
     k = rng.randint(0, min(len(pool), 12))
     return rng.sample(pool, k)
+
+
+def gen_prior(rng, ds):
+    """The earlier life of the pipeline object: 1-2 phases, each = train() on other data over the same
+    identifier universe (users / items of `ds` kept, dropped or new; histories drawn afresh), then queries
+    for the users of both data sets and a few unknown ones.  The case itself then trains the SAME object
+    on `ds` and everything is compared against `ds` alone."""
+    phases = []
+    for _ in range(rng.weighted([(1, 3), (2, 1)])):
+        users = [u for u in ds["users"] if rng.chance(3, 4)]
+        users += rng.sample([u for u in range(1, 31) if u not in ds["users"]], rng.randint(0, 2))
+        items = [i for i in ds["items"] if rng.chance(3, 4)]
+        items += rng.sample([i for i in range(1, 41) if i not in ds["items"]], rng.randint(0, 3))
+        if len(users) < 2:
+            users = list(ds["users"][:2])
+        if len(items) < 3:
+            items = list(ds["items"][:3])
+        users, items = sorted(set(users)), sorted(set(items))
+        dens = rng.choice([2, 3, 5, 7])
+        ratings = []
+        for u in users:
+            cls = rng.weighted([("some", 7), ("empty", 2), ("full", 1)])
+            for i in items:
+                if cls == "full" or (cls == "some" and rng.chance(dens, 8)):
+                    ratings.append([u, i, fjson(Fraction(rng.randint(1, 10), 2))])
+        if len(ratings) < 3:
+            ratings = [[users[0], items[0], "4/1"], [users[0], items[1], "5/2"], [users[1], items[0], "3/1"]]
+        both = sorted(set(users) | set(ds["users"]))
+        asked = rng.shuffle(both + rng.sample([u for u in range(1, 35) if u not in both], 2))[:14]
+        phases.append({"ds": {"users": users, "items": items, "ratings": ratings, "strids": ds["strids"]}, "users": asked})
+    return phases
 
 
 def gen_cases(rng, tier):
@@ -148,9 +192,11 @@ def gen_cases(rng, tier):
         for pi in range(3):
             malformed = (d * 3 + pi) % 9 == 8
             pipe = gen_pipe(r, malformed)
+            if not malformed and r.chance(2, 5):
+                pipe["prior"] = gen_prior(r.fork(("prior", pi)), ds)
             for qi in range(3):
                 q = gen_query(r, ds, malformed)
-                items = gen_items(r, ds, q)
+                items = gen_items(r, ds, q, often=pipe["predicts"] in (True, "custom"))
                 if pipe["kind"] == "predict" and items is None and not (malformed and r.chance(1, 3)):
                     items = r.sample(ds["items"] + [41, 42], r.randint(1, min(8, len(ds["items"]))))
                 run_n = gen_n(r)
@@ -243,6 +289,7 @@ def _pipeline(case):
     ds = _dataset(case["ds"])
     p = case["pipe"]
     sc = _scorer(p["scorer"])
+    prior_obs = []
     if p["kind"] == "topn":
         pipe = L.topn_pipeline(sc, predicts_ratings=p["predicts"], n=p["cfg_n"])
     elif p["kind"] == "builder":
@@ -257,9 +304,26 @@ def _pipeline(case):
     else:
         fb = p["predicts"] if p["predicts"] in (True, False) else _scorer(p["fallback"])
         pipe = L.predict_pipeline(sc, fallback=fb)
+    # the earlier life of this very object: train on other data, answer queries, then train again
+    for ph in p.get("prior") or []:
+        pds = ph["ds"]
+        pipe.train(_dataset(pds))
+        ent = {}
+        for k, u in enumerate(ph["users"]):
+            uid = _uid(pds, u)
+            q = uid if k % 2 == 0 else L.RecQuery(user_id=uid)
+            try:
+                if p["kind"] == "predict":
+                    r = L.predict(pipe, q, [_iid(pds, i) for i in pds["items"]])
+                else:
+                    r = L.recommend(pipe, q)
+                ent[str(u)] = [_back(pds, x) for x in r.ids()]
+            except Exception as e:  # noqa: BLE001
+                ent[str(u)] = _err(e)
+        prior_obs.append(ent)
     pipe.train(ds)
-    _cache[key] = (ds, pipe)
-    return ds, pipe
+    _cache[key] = (ds, pipe, prior_obs)
+    return _cache[key]
 
 
 def _num(x):
@@ -327,8 +391,8 @@ def has_fallback(case):
 
 def run_impl(case):
     _setup()
-    dsobj, pipe = _pipeline(case)
-    obs = {"vocab": [_back(case["ds"], x) for x in dsobj.items.ids()]}
+    dsobj, pipe, prior_obs = _pipeline(case)
+    obs = {"vocab": [_back(case["ds"], x) for x in dsobj.items.ids()], "prior": prior_obs}
     form = case["query"]["form"]
     n = case["run_n"]
 
@@ -452,6 +516,42 @@ def run_impl(case):
         # the scoring model's own output: taken from the run in which nothing but the scorer has seen it
         obs["scored"] = {"ids": solo["scorer"]["ids"], "scores": solo["scorer"]["scores"]}
 
+    # ---- the scoring model and the fallback model on their own: the component object the pipeline holds,
+    # called directly with the query as the property describes it (identifier + the user's row of the CURRENT
+    # training data) and the candidate items as the property describes them -- no pipeline wiring involved
+    direct = {}
+    want = _expected_candidates(case)
+    if not (case["pipe"]["kind"] == "predict" and case["items"] is None):
+        for name in ("scorer", "fallback-predictor"):
+            node = pipe.node(name, missing="none")
+            comp = getattr(node, "component", None)
+            if comp is None:
+                continue
+            try:
+                if form == "none":
+                    dq = L.RecQuery()
+                elif form == "items":
+                    dq = L.RecQuery(user_items=_query(case, "items", dsobj))
+                else:
+                    dq = _query(case, "qhist", dsobj)
+                ids = [_iid(case["ds"], i) for i in want]
+                direct[name] = _il(case, comp(query=dq, items=L.ItemList(item_ids=ids)))
+            except Exception as e:  # noqa: BLE001
+                direct[name] = {"err": _err(e)}
+    obs["direct"] = direct
+
+    # ---- the wiring of the built pipeline as its public interface reports it
+    wiring = {"nodes": {}, "alias": {}}
+    for node in pipe.nodes():
+        conns = pipe.node_input_connections(node.name)
+        wiring["nodes"][node.name] = sorted([k, v.name] for k, v in conns.items())
+    for al in ("recommender", "rating-predictor"):
+        nd = pipe.node(al, missing="none")
+        if nd is not None:
+            wiring["alias"][al] = nd.name
+    wiring["default"] = getattr(pipe.config, "default", None)
+    obs["wiring"] = wiring
+
     # the public entry points, for each form of the query
     forms = [form] + (["qid", "qhist"] if form == "id" else [])
     api = {}
@@ -518,6 +618,43 @@ def c_pyv(n):
     return copt(n, cz)
 
 
+def c_events(case):
+    """the life of the pipeline object up to the observed run: earlier train() calls with the queries answered in
+    between, then train() on the case's data set"""
+    p = case["pipe"]
+    evs = []
+    for ph in p.get("prior") or []:
+        evs.append(f"Train {c_dataset(ph['ds'])}")
+        sup = copt(sorted(ph["ds"]["items"]) if p["kind"] == "predict" else None, lambda l: clist(l, cz))
+        evs += [f"Ask (QId {cz(u)}) {sup}" for u in ph["users"]]
+    evs.append(f"Train {c_dataset(case['ds'])}")
+    return "[" + "; ".join(evs) + "]"
+
+
+W_NAMES = {"query": "Nquery", "items": "Nitems", "n": "Nn", "history-lookup": "Nlookup", "candidate-selector": "Ncandsel",
+           "candidates": "Ncandidates", "scorer": "Nscorer", "fallback-predictor": "Nfallback", "rating-merger": "Nmerger",
+           "ranker": "Nranker", "recommender": "Nrecommender", "rating-predictor": "Npredictor"}
+W_PARAMS = {"query": "Pquery", "items": "Pitems", "n": "Pn", "primary": "Pprimary", "backup": "Pbackup", "fallback": "Pfallback"}
+
+
+def c_wiring(case, w):
+    """the connections the built pipeline object reports against the wiring regenerated from pipeline/common.py"""
+    p = case["pipe"]
+    if p["kind"] == "predict":
+        gen = f"(predict_wiring {cbool(p['predicts'] is not False)})"
+    else:
+        gen = f"(rec_wiring {cbool(p['predicts'] is not False)} {cbool(has_fallback(case))})"
+    try:
+        ins = [W_NAMES[k] for k, e in w["nodes"].items() if not e and k in ("query", "items", "n")]
+        comps = [f"({W_NAMES[k]}, {clist(e, lambda x: f'({W_PARAMS[x[0]]}, {W_NAMES[x[1]]})')})" for k, e in w["nodes"].items()
+                 if not (not e and k in ("query", "items", "n"))]
+        al = [f"({W_NAMES[a]}, {W_NAMES[t]})" for a, t in w["alias"].items() if a != t]
+        dflt = f"(w_default {gen})" if w.get("default") is None else copt(w["default"], lambda x: W_NAMES[x])   # not reported: not compared
+    except KeyError:
+        return "false"                                    # a node or parameter the model of the standard pipelines does not know
+    return f"agree_wiring {gen} [{'; '.join(ins)}] [{'; '.join(comps)}] [{'; '.join(al)}] {dflt}"
+
+
 def coq_term(case, obs):
     if obs["cand"] is None or obs["scored"] is None:
         # the run stopped before the scorer (predict_pipeline without items): nothing to compare
@@ -528,8 +665,10 @@ def coq_term(case, obs):
     if p["kind"] == "predict" and case["items"] is None:
         return None
     c_hist = "(Some " + copt(obs["hist"], lambda l: clist(l, cz)) + ")" if obs["hist_run"] else "None"
-    parts.append(f"agree_front {c_dataset(case['ds'])} {c_qinput(case['query'])} {supplied} "
+    parts.append(f"agree_front_after {c_events(case)} {c_qinput(case['query'])} {supplied} "
                  f"{c_hist} {clist(obs['cand'], cz)} {clist(obs['scored']['ids'], cz)}")
+    if "wiring" in obs:
+        parts.append(c_wiring(case, obs["wiring"]))
     cfg, run = c_pyv(p["cfg_n"]), c_pyv(case["run_n"])
     if has_rec(case):
         if "recommender" in obs["errors"]:
@@ -546,6 +685,7 @@ def coq_term(case, obs):
         parts.append(f"agree_pred {cbool(has_fallback(case))} {c_ilist(obs['pred_primary'])} "
                      f"{copt(obs['fb'], c_ilist)} {c_ilist(obs['pred'])}")
         parts.append(f"ilist_eqb {c_ilist(obs['pred_primary'])} {c_ilist(obs['scored'])}")
+        parts.append(f"agree_backup_items {clist(obs['cand'], cz)} {copt(obs['fb'], c_ilist)}")
     elif has_pred(case):
         parts.append("false")
     # several nodes requested from one run: each requested output against the model, with the scorer's own output
@@ -557,6 +697,7 @@ def coq_term(case, obs):
         if "rating-predictor" in ent:
             fbv = ent["nodes"].get("fallback-predictor")
             parts.append(f"agree_pred {cbool(has_fallback(case))} {c_ilist(obs['scored'])} {copt(fbv, c_ilist)} {c_ilist(ent['rating-predictor'])}")
+            parts.append(f"agree_backup_items {clist(obs['cand'], cz)} {copt(fbv, c_ilist)}")
         sv = ent["nodes"].get("scorer")
         if sv is not None:
             parts.append(f"ilist_eqb {c_ilist(sv)} {c_ilist(obs['scored'])}")       # the scorer's output is a value: nobody alters it
@@ -647,8 +788,24 @@ def oracle(case, obs):
             v.append(("candidates:supplied", f"candidates {cand} are not exactly the supplied list {want_cand}"))
         else:
             v.append(("candidates:unseen", f"candidates {cand} are not the training items minus the history {want_cand}"))
+    if obs.get("hist_run"):
+        q = case["query"]
+        if q["form"] == "items":
+            want_hist = list(q["hist"])
+        elif q["form"] == "id" and q["user"] in case["ds"]["users"]:
+            want_hist = sorted(i for u, i, _ in case["ds"]["ratings"] if u == q["user"])
+        else:
+            want_hist = None
+        got = obs["hist"] if obs["hist"] is None or q["form"] == "items" else sorted(obs["hist"])
+        if got != want_hist:
+            v.append(("history:not-current", f"the history the pipeline works with {obs['hist']} is not the user's row of the current training data {want_hist}"))
     if obs["scored"] is not None and obs["scored"]["ids"] != cand:
         v.append(("scorer-items", "the scorer did not return the candidate items in order"))
+    direct = obs.get("direct", {})
+    dsc = direct.get("scorer")
+    if dsc is not None and "ids" in dsc and obs["scored"] is not None and not bad_scorer and dsc != obs["scored"]:
+        v.append(("scores:not-the-models", f"the pipeline's scorer output {_brief(obs['scored'])} is not what the scoring model itself returns for this "
+                                            f"user (with the history of the current training data) and the candidates {_brief(dsc)}"))
     if has_rec(case):
         if bad_scorer:
             if obs["errors"].get("recommender") != "ENoScores":
@@ -687,12 +844,26 @@ def oracle(case, obs):
                                            f"{[(i, None if s is None else float(s)) for i, s in want]}"))
             if [i for i, _ in pred] != cand:
                 v.append(("predict-items", "predictions are not for exactly the candidate items in order"))
+            dfb = direct.get("fallback-predictor")
+            if has_fallback(case) and obs["fb"] is not None and obs["fb"]["ids"] != cand:
+                v.append(("fallback-items", f"the fallback model was asked about {obs['fb']['ids']}, not about the candidate items {cand}"))
+            if has_fallback(case) and dfb is not None and "ids" in dfb and obs["scored"]["scores"] is not None and cand == want_cand:
+                fmap = dict(_rows(dfb))
+                pmap = dict(pred)
+                seen_items = {i for u, i, _ in case["ds"]["ratings"] if u == case["query"].get("user")} if case["query"]["form"] == "id" else set(case["query"].get("hist", []))
+                for i, sp in prim:
+                    if sp is None and pmap.get(i) != fmap.get(i):
+                        cls = "unknown" if i not in case["ds"]["items"] else "seen" if i in seen_items else "unseen"
+                        v.append((f"predict:fallback-score:{cls}", f"item {i} ({cls}) has no primary score; the fallback model on its own scores it "
+                                  f"{None if fmap.get(i) is None else float(fmap[i])} but the prediction is {None if pmap.get(i) is None else float(pmap[i])}"))
+                        break
             a0 = obs["api"][case["query"]["form"]]
             if a0.get("pred") != obs["pred"]:
                 v.append(("api-vs-run:pred", "lenskit.predict differs from the pipeline run"))
             for f, ent in obs["api"].items():
                 if f != case["query"]["form"] and ent.get("pred") != a0.get("pred"):
                     v.append((f"query-form:{f}:pred", f"query form {f} predicts differently from the bare identifier"))
+    _check_prior(v, case, obs)
     _check_multi(v, case, obs, cand, bad_scorer)
     seen, out = set(), []
     for k, w in v:
@@ -700,6 +871,24 @@ def oracle(case, obs):
             seen.add(k)
             out.append((k, w))
     return out
+
+
+def _check_prior(v, case, obs):
+    """Answers given while the object was trained on earlier data: only items of THAT data, none the user had seen there."""
+    p = case["pipe"]
+    if p["kind"] == "predict":
+        return
+    for k, (ph, ent) in enumerate(zip(p.get("prior") or [], obs.get("prior") or [])):
+        pds = ph["ds"]
+        for u in ph["users"]:
+            got = ent.get(str(u))
+            if not isinstance(got, list):
+                continue
+            seen = {i for a, i, _ in pds["ratings"] if a == u}
+            bad = [i for i in got if i not in pds["items"] or i in seen]
+            if bad:
+                v.append((f"prior[{k}]:non-candidate", f"while trained on the earlier data set #{k}, user {u} was recommended {bad}: not unseen items of that data"))
+                return
 
 
 def _check_multi(v, case, obs, cand, bad_scorer):
@@ -718,6 +907,9 @@ def _check_multi(v, case, obs, cand, bad_scorer):
                 v.append((f"shared-output-altered:{name}",
                           f"after one run requesting [{order}] node '{name}' holds {_brief(val)} but the node on its own produces {_brief(solo[name])}: "
                           f"a consumer altered an output that other components also read"))
+        fbv = ent["nodes"].get("fallback-predictor")
+        if fbv is not None and has_fallback(case) and fbv["ids"] != cand:
+            v.append((f"multi[{order}]:fallback-items", f"in a run requesting [{order}] the fallback model was asked about {fbv['ids']}, not about the candidate items {cand}"))
         if "recommender" in ent and obs["scored"] is not None and obs["scored"]["scores"] is not None:
             _check_ranking(v, f"multi[{order}]:rec", case, cand, obs["scored"], ent["recommender"], ent["ordered"])
             if "rec" in a0 and ent["recommender"] != a0["rec"]:
@@ -773,17 +965,50 @@ def counters(case, obs):
             yield "tie-at-cut"
         if len(set(vals)) < len(vals):
             yield "ties"
+    yield "life=" + ("fresh" if not p.get("prior") else f"retrained-x{len(p['prior'])}")
+    if p.get("prior") and case["query"]["form"] == "id":
+        h_now = sorted(i for a, i, _ in ds["ratings"] if a == u) if u in ds["users"] else None
+        for ph in p["prior"]:
+            h_then = sorted(i for a, i, _ in ph["ds"]["ratings"] if a == u) if u in ph["ds"]["users"] else None
+            if u in ph["users"] and h_then != h_now:
+                yield "retrained:user-asked-before-with-other-history"
+                break
+    if "pred" in obs and has_fallback(case) and obs["scored"] and obs["scored"]["scores"] is not None:
+        seen = {i for a, i, _ in ds["ratings"] if a == u} if case["query"]["form"] == "id" else set()
+        for g in sorted({("unknown" if i not in ds["items"] else "seen" if i in seen else "unseen")
+                         for i, sc_ in zip(obs["scored"]["ids"], obs["scored"]["scores"]) if sc_ is None}):
+            yield "pred-gap=" + g
     if "pred" in obs:
         yield "fallback=" + ("absent" if not has_fallback(case) else "lazy-skipped" if obs["fb"] is None else "consulted")
 
 
 def sample(case, obs):
-    return {"case": {k: case[k] for k in ("pipe", "query", "items", "run_n")}, "dataset": {"users": len(case["ds"]["users"]), "items": len(case["ds"]["items"]), "ratings": len(case["ds"]["ratings"])},
+    return {"case": {"pipe": {k: v for k, v in case["pipe"].items() if k != "prior"}, "prior_phases": len(case["pipe"].get("prior") or []),
+                     **{k: case[k] for k in ("query", "items", "run_n")}}, "dataset": {"users": len(case["ds"]["users"]), "items": len(case["ds"]["items"]), "ratings": len(case["ds"]["ratings"])},
             "observation": {k: obs.get(k) for k in ("errors", "cand", "out")}}
 
 
+_SHRUNK = [0]
+
+
 def shrink(case, fails):
+    if _SHRUNK[0] >= 5:                      # cost cap: at most five failing keys are minimised per run
+        return case
+    _SHRUNK[0] += 1
     c = dict(case)
+    pipe = dict(c["pipe"])
+    if pipe.get("prior"):                    # the earlier life: fewer phases, fewer queries
+        pr = common.shrink_list(pipe["prior"], lambda xs: fails({**c, "pipe": {**pipe, "prior": xs}}), 4)
+        pr = [dict(ph) for ph in pr]
+        for k in range(len(pr)):
+            def with_users(us, k=k):
+                return {**c, "pipe": {**pipe, "prior": pr[:k] + [{**pr[k], "users": us}] + pr[k + 1:]}}
+            pr[k]["users"] = common.shrink_list(pr[k]["users"], lambda us: fails(with_users(us)), 12)
+        if pr:
+            pipe["prior"] = pr
+        else:
+            pipe.pop("prior")
+        c["pipe"] = pipe
     ds = dict(case["ds"])
     rs = common.shrink_list(ds["ratings"], lambda xs: len(xs) >= 1 and fails({**c, "ds": {**ds, "ratings": xs}}), 40)
     ds["ratings"] = rs
